@@ -590,4 +590,39 @@ theorem commonEdgesLoop_spec (H : String → UInt64) (t₂ : T) {tips₁ : List 
         simp only [List.length_cons, Int.natCast_add, Int.natCast_one]
         congr 2 <;> omega
 
+/-! ## keys from several trees on the same taxa -/
+
+/-- `sameSplit` looks at `all` only as a set -/
+theorem sameSplit_perm {all all' : List String} (p : all.Perm all') (a b : List String) :
+    sameSplit all a b = sameSplit all' a b := by
+  rw [Bool.eq_iff_iff, sameSplit_iff, sameSplit_iff]
+  constructor
+  · rintro (h | h)
+    · exact Or.inl fun x hx => h x (p.mem_iff.mpr hx)
+    · exact Or.inr fun x hx => h x (p.mem_iff.mpr hx)
+  · rintro (h | h)
+    · exact Or.inl fun x hx => h x (p.mem_iff.mp hx)
+    · exact Or.inr fun x hx => h x (p.mem_iff.mp hx)
+
+/-- A branch of some tree on the taxa `tips`: the tip order of its tree (any permutation of `tips`)
+    and the leaves below the branch in that order. -/
+structure TreeKey (tips : List String) where
+  order : List String
+  below : List String
+  perm : order.Perm tips
+  sub : below.Sublist order
+
+/-- the index record `ReinitIndexes` leaves on that branch (theorem `indexOf_eq`) -/
+def TreeKey.idx (H : String → UInt64) {tips : List String} (k : TreeKey tips) : EdgeIdx :=
+  specIdx H k.order k.below
+
+theorem TreeKey.sides {tips : List String} (hn : tips.Nodup) (a b : TreeKey tips) :
+    Sides a.order b.order a.below b.below :=
+  ⟨a.perm.nodup_iff.mpr hn, b.perm.nodup_iff.mpr hn, a.perm.trans b.perm.symm, a.sub, b.sub⟩
+
+theorem TreeKey.equals_eq (H : String → UInt64) {tips : List String} (hn : tips.Nodup) (a b : TreeKey tips) :
+    (a.idx H).equals (b.idx H) = sameSplit tips a.below b.below := by
+  unfold TreeKey.idx
+  rw [spec_equals_iff_sameSplit H (TreeKey.sides hn a b), sameSplit_perm a.perm]
+
 end Gotree.C04
